@@ -1,5 +1,4 @@
 import Ledger.Proofs.ApiDecode
-import Mathlib.Data.Rat.Floor
 
 /-!
 C36 helper lemmas: monetary amounts through the script-variable decoders of v1
@@ -7,33 +6,12 @@ and v2 and through the machine's `NewValueFromString`.
 -/
 namespace Ledger.Api
 
-theorem roundF64_nat (k : Nat) (h : k ≤ two53) : roundF64 (k : Rat) = some (k : Rat) := by
-  unfold roundF64
-  rw [if_pos]
-  exact ⟨Rat.den_natCast k, by simpa using h⟩
-
-theorem absRat_ofInt (n : Int) : (JNum.ofInt n).absRat = ((n.natAbs : Nat) : Rat) := by
-  unfold JNum.absRat JNum.exp10 JNum.ofInt JNum.mantAbs
-  simp only [List.length_nil, Option.getD_none, List.foldl_nil]
-  norm_num
-
-/-- v2 numeric amounts: integers up to 2^53 in magnitude survive the `float64`
-    round trip of `ScriptV1.ToCore`. -/
-theorem v2AmountInt_exact (n : Int) (h : n.natAbs ≤ two53) : v2AmountInt (JNum.ofInt n) = n := by
-  unfold v2AmountInt JNum.f64Abs
-  rw [absRat_ofInt, roundF64_nat _ h]
-  have hfl : (((n.natAbs : Nat) : Rat)).floor = (n.natAbs : Int) := by
-    rw [Rat.floor_def]; simp
-  have hlt : ((two53 : Nat) : Int) < two63 := by decide
-  have h2 : (n.natAbs : Int) ≤ ((two53 : Nat) : Int) := by exact_mod_cast h
-  simp only [Option.getD_some, goIntOfF64, hfl]
-  have hneg : (JNum.ofInt n).neg = decide (n < 0) := rfl
-  rw [hneg]
-  by_cases hn : n < 0
-  · simp only [hn, decide_true, if_true]
-    rw [if_neg (by omega)]; omega
-  · simp only [hn, decide_false]
-    rw [if_neg (by omega)]; simp; omega
+theorem JNum.text_ofInt (n : Int) : (JNum.ofInt n).text = showInt n := by
+  cases n with
+  | ofNat k => simp [JNum.text, JNum.ofInt, showInt]
+  | negSucc k =>
+    have : (Int.negSucc k).natAbs = k + 1 := rfl
+    simp [JNum.text, JNum.ofInt, showInt, this, Int.negSucc_lt_zero]
 
 /-! ### v1: `Script.ToCore` + `NewValueFromString` -/
 
@@ -92,14 +70,13 @@ theorem varV2_monetary_string (a : String) (n : Int) :
   rw [string_ofList_eq]
   simp [showIntS, String.toList_ofList]
 
-/-- v2, amount given as a JSON *number*: what reaches the machine is
-    `v2AmountInt` of the literal (nearest double, then Go's `int()` conversion). -/
+/-- v2, amount given as a JSON *number* (`json.Number`): the literal text reaches
+    the machine untouched. -/
 theorem varV2_monetary_number (a : String) (n : JNum) :
-    varV2 (.obj [("asset", .str a), ("amount", .num n)]) = some (a ++ " " ++ showIntS (v2AmountInt n)) := by
+    varV2 (.obj [("asset", .str a), ("amount", .num n)]) = some (a ++ " " ++ String.ofList n.text) := by
   obtain ⟨h1, h2⟩ := lookup_amount_asset (.str a) (.num n)
   unfold varV2
   simp only [h1, h2, fmtAsset_str, v2NumericAmount]
   rw [string_ofList_eq]
-  rfl
 
 end Ledger.Api
